@@ -28,7 +28,7 @@ def run(ctx):
         f = A.fn("wtransport_proto::settings::SettingsBuilder::%s" % m)
         ev = [e for p in nonpanic(walk(f)) for e in event_strs(p) if e.startswith("HashMap::insert(")]
         val = "VarInt::from_u32(%d)" % fixed[m] if m in fixed else "value"
-        ctx.check("C16-R2", "SettingsBuilder::%s" % m, ev == ["HashMap::insert(self.0.0,SettingId::%s,%s)" % (sid, val)], "SettingsBuilder::%s inserts %s, expected (SettingId::%s, %s)" % (m, ev, sid, val), where(f))
+        ctx.check("C16-R2", "SettingsBuilder::%s" % m, ev in (["HashMap::insert(self.0.0,SettingId::%s,%s)" % (sid, val)], ["HashMap::insert(self.0.0,SettingId::%s,%s)" % (sid, fixed.get(m, "value"))]), "SettingsBuilder::%s inserts %s, expected (SettingId::%s, %s)" % (m, ev, sid, val), where(f))
     f = A.fn("wtransport::driver::streams::settings::LocalSettingsStream::empty")
     calls = []
     for p in nonpanic(walk(f))[:1]:
